@@ -259,6 +259,7 @@ Section Order.
         inversion H; subst. specialize (IH _ _ _ _ Er).
         destruct q; cbn [prepare] in Ep.
         * inversion Ep; subst. cbn [blocks flat_map enc_trace app]. exact IH.
+        * inversion Ep; subst. cbn [blocks flat_map enc_trace app]. exact IH.
         * destruct (enc est fields) as [bytes e'] eqn:Ee. destruct (split_chunks _ _ bytes) as [ch|] eqn:Es; [|discriminate].
           inversion Ep; subst. cbn [blocks flat_map enc_trace app]. rewrite Ee. fold (blocks l1).
           rewrite (proj1 (split_chunks_concat _ _ _ _ Es)), IH. reflexivity.
